@@ -53,7 +53,16 @@ type c05Env struct {
 }
 
 func newC05Env(scratch, kind string) *c05Env {
-	st := verifx.NewStack(filepath.Join(scratch, "c05-"+kind), verifx.StackOpts{PartKind: kind})
+	// "fs" / "sql": plain stores; anything else is a stack alias of the storage-history harness
+	// (s3hist_stacks_more.go), e.g. "zstd" = compression directly over the filesystem store (small
+	// parts are stored uncompressed behind a header: a seekable reader positioned past it),
+	// "tink" = seekable decrypting reader, "gzipfs", "zstdsql".
+	var st *verifx.Stack
+	if kind == "fs" || kind == "sql" {
+		st = verifx.NewStack(filepath.Join(scratch, "c05-"+kind), verifx.StackOpts{PartKind: kind})
+	} else {
+		st = newS3hStack(filepath.Join(scratch, "c05-"+kind), kind)
+	}
 	e := &c05Env{kind: kind, st: st, bucket: storage.MustNewBucketName("c05"), objs: map[string]storage.ObjectKey{}}
 	verifx.Check(st.Storage.CreateBucket(context.Background(), e.bucket))
 	e.handler = server.SetupServer(nil, "us-east-1", "localhost", "website.localhost", c05AllowAll{}, st.Storage)
@@ -520,10 +529,7 @@ func c05RandomParts(r *verifx.Rng, fsKind bool) [][]byte {
 }
 
 func c05Random(r *verifx.Rng) c05Case {
-	c := c05Case{kind: "fs"}
-	if r.Bool() {
-		c.kind = "sql"
-	}
+	c := c05Case{kind: verifx.Pick(r, []string{"fs", "fs", "fs", "sql", "sql", "sql", "zstd", "tink", "gzipfs", "zstdsql"})}
 	c.parts = c05RandomParts(r, c.kind == "fs")
 	c.viaPut = len(c.parts) == 1 && r.Bool()
 	size := 0
